@@ -10,6 +10,7 @@ import (
 	"math"
 	"os"
 	"os/exec"
+	"runtime"
 	"runtime/debug"
 	"runtime/metrics"
 	"strings"
@@ -51,7 +52,7 @@ type c04Case struct {
 func init() {
 	engine.Register(&engine.Check{
 		ID: "C04", Level: "model_checking",
-		Rule:   "states = decision points of a reference WKB/EWKB reader model (byte order, type word, SRID, counts per level, coordinate blocks, truncation, trailing bytes); DFS over all field-choice sequences with <=3 (quick) / <=4 (thorough) non-default choices, <=14 fields, for WKB, WKB-NaN and EWKB under limit configurations {-1,0,2}^3 (quick) / {-1,0,1,2}^3 (thorough); every generated string is decoded by Unmarshal, hex Decode and Scan and compared with the model verdict OK(geometry)/TooLarge{level,n,limit}/Error; forged counts are tried in ascending magnitude with the heap-allocation delta measured around each decode; plus a role-blind sweep (every prefix, every byte x 5 values, every 4-byte word x count menu) of every corpus encoding under enabled limits, and a nesting-depth family in a sacrificial subprocess Also: an SRID word on every kind at every nesting level, generation starting from a collection / multipolygon / multilinestring as outermost kind, and intact encodings with one coordinate array of 2^k+1 positions (k=11..16) decoded, re-encoded and decoded again.",
+		Rule:   "states = decision points of a reference WKB/EWKB reader model (byte order, type word, SRID, counts per level, coordinate blocks, truncation, trailing bytes); DFS over all field-choice sequences with <=3 (quick) / <=4 (thorough) non-default choices, <=14 fields, for WKB, WKB-NaN and EWKB under limit configurations {-1,0,2}^3 (quick) / {-1,0,1,2}^3 (thorough); every generated string is decoded by Unmarshal, hex Decode and Scan and compared with the model verdict OK(geometry)/TooLarge{level,n,limit}/Error; forged counts are tried in ascending magnitude with the heap-allocation delta measured around each decode; plus a role-blind sweep (every prefix, every byte x 5 values, every 4-byte word x count menu) of every corpus encoding under enabled limits, and a nesting-depth family in a sacrificial subprocess Also: valid encodings with 100..4000 (thorough 16000) one-to-three-position rings / lines / points / polygons / collection members decoded with the allocation measured (must stay additive in the input length); an SRID word on every kind at every nesting level, generation starting from a collection / multipolygon / multilinestring as outermost kind, and intact encodings with one coordinate array of 2^k+1 positions (k=11..16) decoded, re-encoded and decoded again.",
 		Run:    c04Run,
 		Replay: func(c *engine.Ctx, kind string, raw json.RawMessage) { c04Exec(c, decodeCase[c04Case](raw)) },
 		Assumptions: []string{
@@ -746,6 +747,12 @@ func c04Exec(c *engine.Ctx, cs c04Case) {
 		defer setLimits(saved)
 		b, _ := hex.DecodeString(cs.Hex)
 		c04SweepOne(c, cs, b)
+	case "many":
+		saved := wkbcommon.MaxGeometryElements
+		setLimits(cs.Limits)
+		defer setLimits(saved)
+		b, _ := hex.DecodeString(cs.Hex)
+		c04Many(c, cs, b, "valid encoding")
 	case "depth":
 		c04Depth(c, cs)
 	case "product":
@@ -755,6 +762,36 @@ func c04Exec(c *engine.Ctx, cs c04Case) {
 		b, _ := hex.DecodeString(cs.Hex)
 		c04Product(c, cs, b)
 	}
+}
+
+// c04Many decodes one valid encoding with many parts and compares the bytes allocated (minimum
+// over a few attempts, after a collection, nothing else running) with the additive bound.
+func c04Many(c *engine.Ctx, cs c04Case, enc []byte, what string) {
+	c.Count("evaluations", 1)
+	bound := allocBound(len(enc), cs.Limits)
+	best := uint64(math.MaxUint64)
+	var derr error
+	for try := 0; try < 4 && best > bound; try++ {
+		runtime.GC()
+		b0 := heapAllocs()
+		if p, _ := engine.Guard(func() { _, derr = c04Decode(enc, cs) }); p != nil {
+			derr = fmt.Errorf("panic: %v", p)
+		}
+		if d := heapAllocs() - b0; d < best {
+			best = d
+		}
+	}
+	cc := cs
+	cc.Hex = hex.EncodeToString(enc)
+	if derr != nil {
+		c.Violate(fmt.Sprintf("many/%s/rejected", c04Name(cs)), fmt.Sprintf("%s (%d bytes) rejected: %v", what, len(enc), derr), "c04", cc)
+		return
+	}
+	if best > bound {
+		c.Violate(fmt.Sprintf("many/%s/allocation", c04Name(cs)), fmt.Sprintf("decoding a %s (%d bytes) allocated %d bytes, bound %d", what, len(enc), best, bound), "c04", cc)
+		return
+	}
+	c.Count("many_part_within_bound", 1)
 }
 
 // c04SweepOne: totality, well-formedness and canonical re-encode of one arbitrary string.
@@ -814,6 +851,42 @@ func c04Run(c *engine.Ctx) {
 	c.Note("limit_configurations", len(configs))
 	saved := wkbcommon.MaxGeometryElements
 	defer setLimits(saved)
+
+	// (0) valid encodings with MANY small parts, every count backed by input, decoded one at a
+	// time while nothing else runs (the allocation counter is process-wide): the memory a decode
+	// allocates must stay additive in the input length - a reader that re-copies what it has read
+	// so far for every ring or member is quadratic in their number
+	counts := []int{100, 1000, 4000}
+	if c.Thorough() {
+		counts = append(counts, 16000)
+	}
+	for _, cfg := range [][4]int{{0, -1, -1, -1}, {0, 1 << 15, 1 << 15, 1 << 15}} {
+		setLimits(cfg)
+		for _, n := range counts {
+			ones := make([]int, n)
+			pat := make([]int, n)
+			shape := make([][]int, n)
+			var pts []*ref.G
+			for i := range ones {
+				ones[i], pat[i], shape[i] = 1+i%3, 1, []int{1 + i%2}
+				pts = append(pts, ref.NewPoint(geom.XY, true, ref.CounterFrom(float64(i))))
+			}
+			for gi, g := range []*ref.G{
+				ref.NewParts(ref.Polygon, geom.XY, ones, ref.Counter()),
+				ref.NewParts(ref.MultiLineString, geom.XYZ, ones, ref.Counter()),
+				ref.NewMultiPoint(geom.XY, pat, ref.Counter()),
+				ref.NewMultiPolygon(geom.XY, shape, ref.Counter()),
+				ref.NewCollection(geom.NoLayout, pts...),
+			} {
+				for fi, f := range []c04Case{{}, {Ext: true}} {
+					enc := ref.EncodeWKB(g, (gi+fi)%2 == 1, f.Ext)
+					cs := c04Case{Mode: "many", Ext: f.Ext, Limits: cfg}
+					c.Count("many_part_encodings", 1)
+					c04Many(c, cs, enc, fmt.Sprintf("%s with %d parts", g.Kind, n))
+				}
+			}
+		}
+	}
 
 	// (1) model-driven exploration. Forged counts in ascending magnitude: a family of larger
 	// forged counts is only explored if no allocation violation was seen with smaller ones.
